@@ -403,8 +403,8 @@ pub fn run(args: &Args) -> i32 {
     let cyc = Cycle::build();
     let thorough = args.thorough();
     let us = us_rule(&cyc);
-    let max_n: usize = if thorough { 1500 } else { 300 };
-    let all_seq_n: usize = if thorough { 10 } else { 8 };
+    let max_n: usize = if thorough { 1500 } else if args.digest_mode { 64 } else { 300 };
+    let all_seq_n: usize = if thorough { 10 } else if args.digest_mode { 6 } else { 8 };
     // work list: (n, layout, pattern code) ; pattern code < 3 => i mod (code+1) ; otherwise explicit base-3 sequence number
     let mut work: Vec<(usize, u8, u64, bool)> = vec![];
     for n in 0..=max_n {
